@@ -20,6 +20,8 @@ def main(tier, seed):
         jobs.append((TS, dict(maxiter=1, maxfun=6, maxls=2, ftol="sym", ls_mode="contract", ls_tmax=2, jac_mode=m, groups=["C16"])))
         jobs.append((TS, dict(maxiter=2, maxfun=8, maxls=1, ftol="sym", ls_mode="lean", jac_mode=m, callback_kind="choose", groups=["C16"])))
     jobs.append((TS, dict(maxiter=1, maxfun=6, maxls=2, ftol="sym", ls_mode="contract", ls_tmax=2, jac_mode="2-point", scaler=1, groups=["C16"])))
+    # restart of a finite-difference run (checkpoint counters nfev != njev)
+    jobs.append((TS, dict(maxiter=2, maxfun=12, maxls=1, ftol="sym", ls_mode="lean", jac_mode="2-point", checkpoint=1, ck_nit=1, ck_nfev=5, ck_njev=2, ck_pairs=1, groups=["C16"])))
     # one-sided / partly infinite boxes (is_boxed False)
     for m, pat in (("2-point", ("fi",)), ("none", ("if",)), ("3-point", ("ii",))):
         jobs.append((TS, dict(maxiter=1, maxfun=6, maxls=2, ftol="sym", ls_mode="contract", ls_tmax=2, jac_mode=m, pattern=pat, groups=["C16"])))
